@@ -85,6 +85,9 @@ func devMain(args []string) {
 		if *only != "" && !strings.Contains(sp.Name, *only) {
 			continue
 		}
+		if eng.requested != nil && !eng.requested[sp.PkgPath] {
+			continue
+		}
 		t1 := time.Now()
 		fr := eng.verifyFunc(sp)
 		fmt.Printf("vcgen %s: %d obligations, %.2fs %s\n", fr.Name, len(fr.Obls), time.Since(t1).Seconds(), fr.Err)
